@@ -73,6 +73,49 @@ pub struct ClientCfg {
     /// bits 3-4: with_standard_redirect_policy() not called / called first / called last
     #[serde(default)]
     pub order: u8,
+    /// the protocol (the service that performs the HTTP handshake on a fresh transport) answers
+    /// Pending - after waking the task - this many times to every readiness question before it is
+    /// ready; 0 = the stock, always ready protocol
+    #[serde(default)]
+    pub busy: u8,
+}
+
+/// A protocol behind a limit: `poll_ready` is Pending `n` times (waking the task each time) for
+/// every connection attempt, then delegates to the stock HTTP protocol.
+#[derive(Clone)]
+pub struct BusyProtocol<P> {
+    inner: P,
+    n: u8,
+    left: u8,
+}
+
+impl<P> BusyProtocol<P> {
+    pub fn new(inner: P, n: u8) -> Self {
+        BusyProtocol { inner, n, left: n }
+    }
+}
+
+impl<P, R> tower::Service<R> for BusyProtocol<P>
+where
+    P: tower::Service<R>,
+{
+    type Response = P::Response;
+    type Error = P::Error;
+    type Future = P::Future;
+
+    fn poll_ready(&mut self, cx: &mut std::task::Context<'_>) -> std::task::Poll<Result<(), Self::Error>> {
+        if self.left > 0 {
+            self.left -= 1;
+            cx.waker().wake_by_ref();
+            return std::task::Poll::Pending;
+        }
+        self.inner.poll_ready(cx)
+    }
+
+    fn call(&mut self, req: R) -> Self::Future {
+        self.left = self.n;
+        self.inner.call(req)
+    }
 }
 
 /// The server of the request's origin answers the first arrival with a redirect to the same
@@ -207,20 +250,32 @@ pub fn build_client(net: &Network, cfg: &ClientCfg, any_tls: bool) -> ClientSvc 
     if timeout_first {
         b0 = b0.with_optional_timeout(cfg.timeout_ms.map(Duration::from_millis));
     }
-    let mut b = b0.with_transport(net.transport()).with_body::<ChunkBody, hyperdriver::Body>().with_auto_http();
-    if !timeout_first {
-        b = b.with_optional_timeout(cfg.timeout_ms.map(Duration::from_millis));
+    macro_rules! finish {
+        ($b:expr) => {{
+            let mut b = $b;
+            if !timeout_first {
+                b = b.with_optional_timeout(cfg.timeout_ms.map(Duration::from_millis));
+            }
+            if !pool_first {
+                b = if cfg.pool { b.with_pool(pc) } else { b.without_pool() };
+            }
+            if !tls_first {
+                b = if any_tls { b.with_tls(tls_cfg()) } else { b.without_tls() };
+            }
+            if redirect_call == 2 {
+                b.with_standard_redirect_policy().build_service()
+            } else {
+                b.build_service()
+            }
+        }};
     }
-    if !pool_first {
-        b = if cfg.pool { b.with_pool(pc) } else { b.without_pool() };
+    let base = b0.with_transport(net.transport()).with_body::<ChunkBody, hyperdriver::Body>();
+    if cfg.busy > 0 {
+        let stock = hyperdriver::client::conn::protocol::auto::HttpConnectionBuilder::<ChunkBody>::default();
+        finish!(base.with_protocol(BusyProtocol::new(stock, cfg.busy)))
+    } else {
+        finish!(base.with_auto_http())
     }
-    if !tls_first {
-        b = if any_tls { b.with_tls(tls_cfg()) } else { b.without_tls() };
-    }
-    if redirect_call == 2 {
-        b = b.with_standard_redirect_policy();
-    }
-    b.build_service()
 }
 
 pub fn request_uri(origin: &str, p: &ReqPlan) -> String {
@@ -700,6 +755,7 @@ fn gen_case(seed: u64) -> E2eCase {
         alpn_h2: r.bool(),
         timeout_ms: None,
         order: r.below(24) as u8,
+        busy: *Rng::keyed(seed, "e2e/busy").weighted(&[(3, 0u8), (1, 1), (1, 3)]),
     };
     let faulty = r.chance(2, 3);
     let n = r.range(1, 10) as u32;
